@@ -326,3 +326,82 @@ func init() {
 	replays["C16meta"] = rp("C16")
 	replays["C17meta"] = rp("C17")
 }
+
+// ---------------------------------------------------------------------------------------------
+// C04: cycles through schemas carrying an ABSOLUTE id, in canonical and non-canonical spellings (upper-case host, default
+// port, doubled slash): expansion must terminate for every spelling (each call in a killable worker with a time limit)
+
+type idCycleInput struct {
+	ID    string `json:"id"`
+	Shape string `json:"shape"` // self | mutual | nested
+}
+
+func idCycleDocs(in idCycleInput) map[string]interface{} {
+	node := map[string]interface{}{"id": in.ID, "type": "object", "properties": map[string]interface{}{
+		"next": map[string]interface{}{"$ref": "#/definitions/node"}, "name": map[string]interface{}{"type": "string"}}}
+	defs := map[string]interface{}{"node": node}
+	switch in.Shape {
+	case "mutual":
+		node["properties"].(map[string]interface{})["next"] = map[string]interface{}{"$ref": "#/definitions/other"}
+		defs["other"] = map[string]interface{}{"type": "object", "properties": map[string]interface{}{"back": map[string]interface{}{"$ref": "#/definitions/node"}}}
+	case "nested":
+		node["properties"].(map[string]interface{})["next"] = map[string]interface{}{"type": "array", "items": map[string]interface{}{"allOf": []interface{}{map[string]interface{}{"$ref": "#/definitions/node"}}}}
+	}
+	return map[string]interface{}{"file:///ids/root.json": map[string]interface{}{"swagger": "2.0", "info": map[string]interface{}{"title": "t", "version": "1"},
+		"paths": map[string]interface{}{"/n": map[string]interface{}{"get": map[string]interface{}{"responses": map[string]interface{}{"200": map[string]interface{}{"description": "d", "schema": map[string]interface{}{"$ref": "#/definitions/node"}}}}}},
+		"definitions": defs}}
+}
+
+func checkIDCycle(in idCycleInput) (msg string) {
+	g := exFromGeneric(idCycleDocs(in), "file:///ids/root.json")
+	for _, cont := range []bool{false, true} {
+		for _, abs := range []bool{false, true} {
+			c := g.call("expand_spec", exOpts{Cont: cont, Abs: abs})
+			res := exWorkerRun(c)
+			if res.Timeout {
+				return fmt.Sprintf("ExpandSpec (cont=%v abs=%v) does not return within the time limit on a cycle through a schema with id %q", cont, abs, in.ID)
+			}
+			if res.Panic != "" {
+				return fmt.Sprintf("ExpandSpec (cont=%v abs=%v) crashes on a cycle through a schema with id %q: %.200s", cont, abs, in.ID, res.Panic)
+			}
+		}
+	}
+	return ""
+}
+
+func oracleC04IDs(r *rng, n int, tier string) *oracleResult {
+	exQuiet()
+	res := &oracleResult{Stats: map[string]int{}}
+	ids := []string{"http://schemas.example.com/node.json", "http://Schemas.Example.COM/node.json", "http://schemas.example.com:80/node.json",
+		"https://schemas.example.com:443/node.json", "HTTP://schemas.example.com/node.json", "http://schemas.example.com//a//node.json", "file://HOST/ids/node.json"}
+	for _, id := range ids {
+		for _, sh := range []string{"self", "mutual", "nested"} {
+			in := idCycleInput{ID: id, Shape: sh}
+			res.Evaluations++
+			res.Distinct++
+			if msg := checkIDCycle(in); msg != "" {
+				res.Stats["fail:id-cycle-nontermination"]++
+				if res.Stats["fail:id-cycle-nontermination"] <= 1 {
+					res.Failures = append(res.Failures, failure{Property: "C04", What: msg, Shape: "id-cycle-nontermination", Input: in})
+				}
+			}
+		}
+	}
+	res.Samples = []interface{}{idCycleInput{ID: ids[1], Shape: "self"}}
+	return res
+}
+
+func init() {
+	oracles["C04ids"] = oracleC04IDs
+	replays["C04ids"] = func(input json.RawMessage) *oracleResult {
+		var in idCycleInput
+		res := &oracleResult{Stats: map[string]int{}, Evaluations: 1}
+		if json.Unmarshal(input, &in) != nil {
+			return res
+		}
+		if msg := checkIDCycle(in); msg != "" {
+			res.Failures = append(res.Failures, failure{Property: "C04", What: msg, Shape: "id-cycle-nontermination", Input: in})
+		}
+		return res
+	}
+}
